@@ -34,9 +34,11 @@ func UpdateCase(r *rand.Rand, name string, o UpdateOpts) *Case {
 	ctxD := decl(src, "Ctx", Struct(F("ID", Basic("string"))))
 	fields := map[string]vref.FieldSpec{}
 	var methLines, convLines []string
-	kinds := []string{"basic", "basic", "namedbasic", "struct", "slice", "map", "ptrbasic", "ptrstruct", "chan", "any", "identslice", "identptr", "ignore", "missing", "rename", "func", "basic2ptr", "funcfield", "computed"}
+	kinds := []string{"basic", "basic", "namedbasic", "struct", "slice", "map", "ptrbasic", "ptrstruct", "chan", "any", "identslice", "identptr", "ignore", "missing", "rename", "func", "basic2ptr", "funcfield", "computed", "mapfunc", "mapfunclist"}
 	needSkip, needMissing := false, false
 	computed := false
+	funcSrc := ""
+	var mapFuncs []string
 	unnamedSource := r.Intn(5) == 0
 	used := map[string]bool{}
 	nf := 3 + r.Intn(6)
@@ -81,6 +83,20 @@ func UpdateCase(r *rand.Rand, name string, o UpdateOpts) *Case {
 			tS.Fields = append(tS.Fields, F(f, Basic("string")))
 			methLines = append(methLines, "map "+f+" | Make")
 			fields[f] = vref.FieldSpec{Func: "fn:Make", NoSource: true}
+		case "mapfunc", "mapfunclist":
+			// a target field computed by a function FROM a source field: the zero check applies to the value handed to it
+			fn := "Conv" + f
+			if k == "mapfunc" {
+				sS.Fields = append(sS.Fields, F(f+"In", Basic("int")))
+				funcSrc += fmt.Sprintf("func %s(v int) string { return fmt.Sprintf(\"%s:%%d\", v) }\n\n", fn, fn)
+			} else {
+				sS.Fields = append(sS.Fields, F(f+"In", Slice(Basic("int"))))
+				funcSrc += fmt.Sprintf("func %s(v []int) string { return fmt.Sprintf(\"%s:%%v\", v) }\n\n", fn, fn)
+			}
+			tS.Fields = append(tS.Fields, F(f+"Out", Basic("string")))
+			methLines = append(methLines, "map "+f+"In "+f+"Out | "+fn)
+			fields[f+"Out"] = vref.FieldSpec{Path: []string{f + "In"}, Func: "fn:" + fn}
+			mapFuncs = append(mapFuncs, fn)
 		case "basic2ptr":
 			sS.Fields = append(sS.Fields, F(f, Basic(b)))
 			tS.Fields = append(tS.Fields, F(f, Ptr(Basic(b))))
@@ -213,15 +229,25 @@ func UpdateCase(r *rand.Rand, name string, o UpdateOpts) *Case {
 		nv = 45
 	}
 	cv.Spec = &vref.Spec{Seed: o.Seed, NValues: nv, Monitors: []string{"update"}, Conv: flagsConv}
-	if computed {
-		conv.Files = map[string]string{"funcs.go": "package conv\n\nfunc Make() string { return \"made\" }\n"}
-		cv.Spec.Funcs = []*vref.FuncSpec{{Key: "fn:Make", Kind: "map", Roles: []string{}}}
-		cv.Callables = map[string]string{"fn:Make": "conv.Make"}
+	if computed || len(mapFuncs) > 0 {
+		qual := "conv."
 		cv.GlueImports = []string{fmt.Sprintf("conv %q", c.Root+"/conv")}
 		if o.Format == "variables" {
-			cv.Callables["fn:Make"] = "gen.Make"
+			qual = "gen."
 			cv.GlueImports = nil
 		}
+		cv.Callables = map[string]string{}
+		src := "package conv\n\nimport \"fmt\"\n\nvar _ = fmt.Sprint\n\n"
+		if computed {
+			src += "func Make() string { return \"made\" }\n\n"
+			cv.Spec.Funcs = append(cv.Spec.Funcs, &vref.FuncSpec{Key: "fn:Make", Kind: "map", Roles: []string{}})
+			cv.Callables["fn:Make"] = qual + "Make"
+		}
+		for _, fn := range mapFuncs {
+			cv.Spec.Funcs = append(cv.Spec.Funcs, &vref.FuncSpec{Key: "fn:" + fn, Kind: "map", Roles: []string{"source"}})
+			cv.Callables["fn:"+fn] = qual + fn
+		}
+		conv.Files = map[string]string{"funcs.go": src + funcSrc}
 	}
 	c.Convs = []*Converter{cv}
 	c.Patterns = []string{"./conv"}
